@@ -65,6 +65,10 @@ type Case struct {
 	// As: the command goes through a command translator (what sudo / su / gosu are): "" = none, "env" = `env <cmd>`,
 	// "nice" = `nice -n 0 <cmd>` (both replace themselves by the command, as sudo-like wrappers of interest do)
 	As string `json:"as,omitempty"`
+	// PriorCancelled (execute only): the same object has just been executed once and interrupted by Cancel(): an object is
+	// not a one-shot thing. HoldMs: the tree is left running that long before the stop is requested.
+	PriorCancelled bool `json:"prior_run_cancelled,omitempty"`
+	HoldMs         int  `json:"hold_ms,omitempty"`
 }
 
 func newProc(ctx context.Context, as string, args []string) (*subprocess.Subprocess, error) {
@@ -128,7 +132,8 @@ func genCase(t *rapid.T) Case {
 	c.Start = rapid.SampledFrom([]string{"execute", "execute", "start", "start", "supervisor"}).Draw(t, "start")
 	switch c.Start {
 	case "execute":
-		c.Stop = rapid.SampledFrom([]string{"ctx", "deadline", "Cancel", "Stop"}).Draw(t, "stop")
+		c.Stop = rapid.SampledFrom([]string{"ctx", "deadline", "Cancel", "Stop", "Restart"}).Draw(t, "stop")
+		c.PriorCancelled = rapid.IntRange(0, 5).Draw(t, "prior-cancelled") == 0
 	case "start":
 		c.Stop = rapid.SampledFrom([]string{"ctx", "deadline", "Cancel", "Stop", "Stop", "Restart"}).Draw(t, "stop")
 	default:
@@ -251,11 +256,31 @@ func check(t ev.T, test string, c Case) {
 		defer idle.Store(true)
 	}
 	began := time.Now()
+	priorRegistered := 0
 	switch c.Start {
 	case "execute":
 		p, err = newProc(runCtx, c.As, args)
 		if err != nil {
 			ev.Fail(t, prop, test, c, "New failed: %v", err)
+		}
+		if c.PriorCancelled {
+			prior := make(chan error, 1)
+			go func() { prior <- p.Execute() }()
+			for end := time.Now().Add(5 * time.Second); !p.IsOn() && time.Now().Before(end); {
+				time.Sleep(200 * time.Microsecond)
+			}
+			time.Sleep(30 * time.Millisecond)
+			p.Cancel()
+			select {
+			case <-prior:
+			case <-time.After(10 * time.Second):
+				ev.Inconclusive("the prior run did not return 10 s after Cancel()")
+				return
+			}
+			// (the next run begins straight away: what the previous one leaves behind in the library is part of the case)
+			priorRegistered = len(proctree.Registered(dir))
+			ev.Class("the object had been executed and cancelled before")
+			began = time.Now()
 		}
 		go func() { done <- p.Execute() }()
 	case "start":
@@ -286,14 +311,17 @@ func check(t ev.T, test string, c Case) {
 	// ---- the stop instant
 	want := c.Tree.Count()
 	if c.StopAtMs < 0 {
-		ms := proctree.WaitRegistered(dir, want, 20*time.Second)
-		if len(ms) < want {
+		ms := proctree.WaitRegistered(dir, want+priorRegistered, 20*time.Second)
+		if len(ms) < want+priorRegistered {
 			ev.Inconclusive("the tree had not finished spawning after 20 s")
 			cancel()
 			return
 		}
 	} else {
 		time.Sleep(time.Until(began.Add(stopAt)))
+	}
+	if c.HoldMs > 0 {
+		time.Sleep(time.Duration(c.HoldMs) * time.Millisecond)
 	}
 	before := proctree.Registered(dir)
 	if c.Start == "execute" {
@@ -333,6 +361,11 @@ func check(t ev.T, test string, c Case) {
 		t0 = time.Now()
 		go func() { stopDone <- p.Stop() }()
 	case "Restart":
+		if c.Start == "execute" {
+			for end := time.Now().Add(5 * time.Second); !p.IsOn() && time.Now().Before(end); {
+				time.Sleep(200 * time.Microsecond)
+			}
+		}
 		t0 = time.Now()
 		go func() { stopDone <- p.Restart() }()
 	}
@@ -347,7 +380,7 @@ func check(t ev.T, test string, c Case) {
 	execReturned, stopReturned := false, false
 	released := func() bool {
 		switch {
-		case c.Start == "execute" && c.Stop == "Stop":
+		case c.Start == "execute" && (c.Stop == "Stop" || c.Stop == "Restart"):
 			// both calls must come back: Execute and the Stop that interrupted it
 			if !execReturned {
 				select {
